@@ -75,8 +75,6 @@ var c10Exceptions = []struct{ fn, kind, expr, reason string }{
 		"same invariant as the server side: hasError implies len(inputArgs) >= 1 (C10-D6)"},
 	{"(*sio.clientSocket).callEvent", "index", `\[\(len\(.+\) - 1\)…?\]?$`,
 		"reached only when handler.ack() is true, i.e. the handler's last parameter is a func; values has one entry per parameter (arity guard in onEvent, C10-D2) and the offset strip above removes a last value only when it is a string, which a func parameter's value is not"},
-	{"(*sio.clientSocket).emitBuffered", "index", `\.sendBuffer\[`,
-		"index ranges over packets, made with len(s.sendBuffer) a few lines above under the same sendBufferMu critical section with no store to sendBuffer in between (application-buffered packets, not peer data)"},
 }
 
 // c10Cut: functions of the Socket.IO layer that are reachable from the receive
